@@ -21,6 +21,7 @@ Fixpoint vars_e (e : expr) : list var :=
   | EVar x => [x]
   | EConst _ => []
   | EBin _ a b => vars_e a ++ vars_e b
+  | EComp v k b => vars_e k ++ remove v (vars_e b)
   end.
 
 (* least X ⊇ f X by iteration from X, at most n rounds (n is generous; convergence is checked, not assumed) *)
